@@ -81,7 +81,8 @@ def check(ck):
             keys_out[tag] = set(ks)
     tags_in = set()
     for n in A.walk_body(dec.node):
-        if isinstance(n, ast.Compare) and A.norm(n.left) == "memento_type" and isinstance(n.ops[0], ast.Eq):
+        if isinstance(n, ast.Compare) and isinstance(n.ops[0], ast.Eq) and A.const_str(n.comparators[0]) is not None \
+                and dec.xnorm(n.left, dec.nodes(dec.stmt_of(n) or n)[0] if dec.nodes(dec.stmt_of(n) or n) else None).endswith("['_mementoType']"):
             tags_in.add(A.const_str(n.comparators[0]))
     ck.ob(R1, dec.key(None, "tags"), tags_out == tags_in and len(tags_out) == 3, "type tags agree: %s" % sorted(tags_out) if tags_out == tags_in else
           "type tags differ: encoder emits %s, decoder handles %s" % (sorted(tags_out), sorted(tags_in)), dec.where())
@@ -174,31 +175,49 @@ def check(ck):
           "arg_hash is not computed after effective_kwargs / effective_kwargs_with_context_args", ini.where())
     ce = FA(ck, FRA + "._compute_effective_kwargs")
     cfg = ce.cfg
-    start = [s for s in ce.stmts(ast.Assign) if any(isinstance(t, ast.Name) and t.id == "result" for t in s.targets)]
-    ok1 = len(start) == 1 and A.norm(start[0].value) == "dict(self.fn_reference.partial_kwargs)"
+    # roles, not names: RES is the local that is returned; everything else is compared on expansions
+    rt = ce.returns()
+    RES = rt[0].value.id if len(rt) == 1 and isinstance(rt[0].value, ast.Name) else None
+    ck.ob(R3, ce.key(None, "returns-result"), RES is not None, "the bound mapping is returned" if RES else "the bound mapping is not what is returned", ce.where())
+    start = [s for s in ce.stmts(ast.Assign) if any(isinstance(t, ast.Name) and t.id == RES for t in s.targets)]
+    ok1 = len(start) == 1 and ce.xnorm(start[0].value) == "dict(self.fn_reference.partial_kwargs)"
     ck.ob(R3, ce.key(None, "starts-from-partial-kwargs"), ok1, "effective kwargs start from a copy of the partial kwargs" if ok1 else
           "effective kwargs do not start from a copy of the reference's partial kwargs", ce.where())
-    sets = [s for s in ce.stmts(ast.Assign) if any(isinstance(t, ast.Subscript) and A.norm(t.value) == "result" for t in s.targets)]
-    txt = {A.norm(s) for s in sets}
-    ok2 = txt == {"result[parameter_names[i]] = partial_args[i]", "result[remaining_parameter_names[i]] = self.args[i]"}
+    sets = [s for s in ce.stmts(ast.Assign) if any(isinstance(t, ast.Subscript) and A.norm(t.value) == RES for t in s.targets)]
+    pairs = set()
+    rem_name = None
+    for s_ in sets:
+        t_ = s_.targets[0]
+        if isinstance(t_.slice, ast.Subscript) and isinstance(s_.value, ast.Subscript) and A.norm(t_.slice.slice) == A.norm(s_.value.slice):
+            at = ce.nodes(s_)[0]
+            nm, vl = ce.xnorm(t_.slice.value, at), ce.xnorm(s_.value.value, at)
+            if vl == "self.args" and isinstance(t_.slice.value, ast.Name):
+                rem_name = t_.slice.value.id
+                rd = ce.df.reaching(at, rem_name)
+                nm = "<remaining>" if len(rd) == 1 and isinstance(rd[0].value, ast.ListComp) else nm
+            pairs.add((nm, vl))
+        else:
+            pairs.add((A.norm(t_), A.norm(s_.value)))
+    ok2 = pairs == {("self.fn_reference.parameter_names", "self.fn_reference.partial_args"), ("<remaining>", "self.args")}
     ck.ob(R3, ce.key(None, "positional-by-name"), ok2, "partial and positional args are bound to parameter names in order" if ok2 else
-          "positional arguments are not bound as result[names[i]] = values[i]: %s" % sorted(txt), ce.where())
-    rem = [s for s in ce.stmts(ast.Assign) if any(isinstance(t, ast.Name) and t.id == "remaining_parameter_names" for t in s.targets)]
-    ok3 = len(rem) == 1 and isinstance(rem[0].value, ast.ListComp) and A.norm(rem[0].value.generators[0].iter) == "parameter_names" \
-        and [A.norm(c) for c in rem[0].value.generators[0].ifs] == ["name not in result"]
+          "positional arguments are not bound as result[names[i]] = values[i]: %s" % sorted(pairs), ce.where())
+    rem = [s for s in ce.stmts(ast.Assign) if rem_name is not None and any(isinstance(t, ast.Name) and t.id == rem_name for t in s.targets)]
+    ok3 = False
+    if len(rem) == 1 and isinstance(rem[0].value, ast.ListComp) and len(rem[0].value.generators) == 1:
+        g_ = rem[0].value.generators[0]
+        tv = g_.target.id if isinstance(g_.target, ast.Name) else None
+        ok3 = tv is not None and ce.xnorm(g_.iter, ce.nodes(rem[0])[0]) == "self.fn_reference.parameter_names" \
+            and [A.norm(c) for c in g_.ifs] == ["%s not in %s" % (tv, RES)] and A.norm(rem[0].value.elt) == tv
     ck.ob(R3, ce.key(None, "remaining-names"), ok3, "positional args fill the parameters not yet bound, in order" if ok3 else
           "remaining parameter names are not [name for name in parameter_names if name not in result]", ce.where())
-    upd = [c for c in ce.calls("update") if A.norm(A.call_recv(c)) == "result"]
+    upd = [c for c in ce.calls("update") if A.norm(A.call_recv(c)) == RES]
     ok4 = len(upd) == 1 and [A.norm(a) for a in upd[0].args] == ["self.kwargs"]
     if ok4:
-        after_sets = all(cfg.must_pass(ce.nodes(s), i) or True for s in sets for i in ce.nodes(upd[0]))
         # kwargs are applied last: no positional binding after the update
         late = [s for s in sets if set(ce.nodes(s)) & cfg.reach(ce.nodes(upd[0]), include_start=False)]
         ok4 = not late
     ck.ob(R3, ce.key(None, "kwargs-last"), ok4, "keyword arguments are applied last" if ok4 else
           "keyword arguments are not merged last with result.update(self.kwargs)", ce.where())
-    rt = ce.returns()
-    ck.ob(R3, ce.key(None, "returns-result"), len(rt) == 1 and A.norm(rt[0].value) == "result", "the bound mapping is returned", ce.where())
     fr = FA(ck, "reference.FunctionReference.__init__")
     for field in ("_partial_args", "_partial_kwargs"):
         st = [s for s in fr.stmts(ast.Assign) if any(A.dotted(t) == "self." + field for t in s.targets)]
